@@ -76,15 +76,16 @@ def parseArray : Nat → List Nat → Res (List Obj × List Nat)
   | fuel + 1, inp =>
     match next inp with
     | .error e => .error e
-    | .ok (.arrayEnd, rest) => .ok ([], rest)
-    | .ok (.comment _, rest) => parseArray fuel rest
     | .ok (tok, rest) =>
-      match parseFromToken fuel tok rest with
-      | .error e => .error e
-      | .ok (x, rest') =>
-        match parseArray fuel rest' with
-        | .ok (xs, rest'') => .ok (x :: xs, rest'')
+      if tok == .arrayEnd then .ok ([], rest)
+      else if tok.isComment then parseArray fuel rest
+      else
+        match parseFromToken fuel tok rest with
         | .error e => .error e
+        | .ok (x, rest') =>
+          match parseArray fuel rest' with
+          | .ok (xs, rest'') => .ok (x :: xs, rest'')
+          | .error e => .error e
 
 /-- `parse_dictionary_inner_with_options` (the `<<` already consumed) -/
 def parseDictInner : Nat → List Nat → Res (List (List Nat × Obj) × List Nat)
